@@ -20,9 +20,9 @@ CHECKS = {
                 text='One frame of next() (from function entry, and again from the loop head with the loop-carried locals of a first trip) either yields the deal at the current position p (then p is legal, the showdown carries flop+turn+river, the selected combos in player order, the left-to-right f32 product, and the iterator is left at succ(p)), '
                      'or skips p (then p is illegal and iteration continues at succ(p)), or returns None (then p is the scope end). By induction over the finite position order the yielded sequence is exactly the legal deals, each once. Bound: player count.',
                 note='Assumes the representation invariant (proved preserved in C04/C08), S1 (set model), S8 (uninterpreted hand strength); entry-list order is arbitrary (HashMap order). Self-call / loop back edge handled by assume-guarantee, well-founded by the ranking obligation of C08.', ref='6/C02'),
-    'C03': dict(level='model_checking', engine='kani', technique=KT + '; evaluator stubbed by an uninterpreted function (kani::stub) so every tie pattern is in the space',
+    'C03': dict(level='model_checking', engine='kani+mirx', technique=KT + '; evaluator stubbed by an uninterpreted function (kani::stub) so every tie pattern is in the space; ' + MT + ' for tables of up to 6 (9) players',
                 text='5+2n symbolic pairwise-distinct cards, n <= 3 (quick) / 4 (thorough) with arbitrary strengths, n = 2 with the real evaluator: players in input order with their own seven cards and evaluation, winners exactly the minimum index, winner_len = number of flags >= 1; board collision => None.',
-                note='Bound n <= 4 of 10 seats (single pass has no per-n behaviour beyond first/middle/last: stated, not proved). std HashSet replaced by a linear model set in the scratch copy.', ref='6/C03'),
+                note='Bounds: Kani n <= 3 (4), Engine M n <= 6 (9) of 10 seats. std HashSet replaced by a linear model set in the Kani scratch copy and by the set model S1 in Engine M.', ref='6/C03'),
     'C04': dict(level='model_checking', engine='mirx', technique=MT + '; inductive step with a symbolic scope window plus symbolic execution of scope()/into_iter()',
                 text='Under from <= p <= to (valid positions or (48,49)) the stop test fires exactly at p == to, a step keeps the position valid, inside the window and leaves the window untouched, exhaustion is stable; scope() stores its arguments and into_iter() starts at from with a zero odometer and the rank-major deck. Tiling of chained half-open windows follows by concatenation.',
                 note='Concatenation argument is one line on paper, not a solver step. (t,49) with t<48 is not a position (C16).', ref='6/C04'),
